@@ -285,6 +285,46 @@ def run(chk):
     ok = bool(bcall) and [u(a) for a in bcall[0].args] == ["id_conflicts", "num_docs", "offset"]
     chk.ob("O3.6", "id list built for this slice's (docs, offset)", ok, bcall[0] if bcall else cdr, "")
 
+    # ---- O3.9 every reader is consumed exactly once ---------------------------------------------------------------------------------------------------------
+    chk.rule("O3.9", "reader factory: corpora are rotated (not filtered) for staggering; a reader is created for every document set with a non-empty share; the staggering loop moves every "
+             "created reader into the result exactly once; chain() runs every reader inside its context; the bulk generator walks every batch and bulk", 6,
+             "a whole corpus file is never ingested (or ingested twice) for some client index / number of corpora")
+    cdefs3 = local_defs(cr)
+    rot = cdefs3.get("reordered_corpora")
+    k_ = cdefs3.get("start_corpora_id")
+    ok = rot is not None and u(rot) in ("corpora[start_corpora_id:] + corpora[:start_corpora_id]",) and k_ is not None and u(k_) == "start_client_index % len(corpora)"
+    chk.ob("O3.9", "corpora rotated by start % len (every corpus kept once)", ok, rot if rot is not None else cr, u(rot) if rot is not None else "")
+    ol = [n for n in walk_body(cr) if isinstance(n, ast.For) and u(n.iter) == "reordered_corpora"]
+    il = [n for n in ast.walk(ol[0]) if isinstance(n, ast.For) and n is not ol[0] and u(n.iter).endswith(".documents")] if ol else []
+    ok = bool(ol) and bool(il)
+    chk.ob("O3.9", "every document set of every (rotated) corpus is visited", ok, ol[0] if ol else cr, "")
+    if il:
+        mk = [n for n in ast.walk(il[0]) if isinstance(n, ast.Call) and u(n.func) == "create_reader"]
+        ap_ = [n for n in ast.walk(il[0]) if isinstance(n, ast.Call) and u(n.func) == "reader_queue.append"]
+        inc_ = [n for n in ast.walk(il[0]) if isinstance(n, ast.AugAssign) and u(n.target) == "total_readers"]
+        gs_ = [u(t) for t, pol in guards(mk[0], stop=il[0]) if pol] if mk else None
+        ok = len(mk) == 1 and len(ap_) == 1 and len(inc_) == 1 and gs_ == ["num_docs > 0"] and source.is_const(inc_[0].value, 1) and source.parent(inc_[0]) is source.parent(source.enclosing_stmt(ap_[0]))
+        chk.ob("O3.9", "a reader per document set with a non-empty share, counted once", ok, mk[0] if mk else il[0], f"guards={gs_}")
+        qa = [n for n in ast.walk(ol[0]) if isinstance(n, ast.Call) and u(n.func) == "corpora_readers.append"]
+        chk.ob("O3.9", "every corpus queue is kept", len(qa) == 1 and source.parent(source.enclosing_stmt(qa[0])) is ol[0], qa[0] if qa else ol[0], "")
+    wl_ = [n for n in walk_body(cr) if isinstance(n, ast.While)]
+    ok = False
+    if wl_:
+        W_ = wl_[0]
+        pops = [n for n in ast.walk(W_) if isinstance(n, ast.Call) and last_attr(n.func) == "popleft"]
+        decs = [n for n in ast.walk(W_) if isinstance(n, ast.AugAssign) and u(n.target) == "total_readers" and isinstance(n.op, ast.Sub) and source.is_const(n.value, 1)]
+        ok = u(W_.test) == "total_readers > 0" and len(pops) == 1 and len(decs) == 1 and isinstance(source.parent(pops[0]), ast.Call) and u(source.parent(pops[0]).func) == "staggered_readers.append" \
+            and source.parent(decs[0]) is source.parent(source.enclosing_stmt(pops[0])) and [u(t) for t, pol in guards(pops[0], stop=W_) if pol] == ["reader_queue"]
+    chk.ob("O3.9", "staggering moves every created reader into the result exactly once", ok, wl_[0] if wl_ else cr, "")
+    chf = pr.func("chain")
+    ok = any(isinstance(n, ast.With) and any(isinstance(x, ast.Expr) and isinstance(x.value, ast.YieldFrom) for x in n.body) for n in walk_body(chf)) and any(isinstance(n, ast.For) and "is not None" in u(n.iter) for n in walk_body(chf))
+    chk.ob("O3.9", "chain(): every (non-None) reader is opened and fully delegated to", ok, chf, "")
+    bgl = [n for n in walk_body(bg) if isinstance(n, ast.For)]
+    ok = len(bgl) == 2 and u(bgl[0].iter) == "readers" and not any(isinstance(x, (ast.Break, ast.Continue)) or (isinstance(x, ast.If) and any(isinstance(y, ast.Continue) for y in x.body)) for x in ast.walk(bgl[0]))
+    ys = [n for n in ast.walk(bg) if isinstance(n, ast.Yield)]
+    ok = ok and len(ys) == 1 and not any("pipeline" not in u(t) for t, pol in guards(ys[0], stop=bgl[1]))
+    chk.ob("O3.9", "bulk generator yields every bulk of every batch", ok, bg, "")
+
     # ---- O3.7 offset table ------------------------------------------------------------------------------------------------------------------------------------
     from rules.C14 import offset_table_protocol
 
@@ -350,6 +390,9 @@ VARIANTS = [
     V("floor for the percentage", "break", _P, "        self.total_bulks = math.ceil((all_bulks * self.ingest_percentage) / 100)", "        self.total_bulks = math.floor((all_bulks * self.ingest_percentage) / 100)", "O3.8"),
     V("partial bulk not counted", "break", _P, "            if rest > 0:\n                bulks += 1\n    return bulks", "    return bulks", "O3.8"),
     V("seed m1: offsets accumulated from len(line)", "break", _I, "                        file_offset_table.add_offset(line_number, data_file.tell())", "                        file_offset_table.add_offset(line_number, sum(map(len, [line])))", "O3.7"),
+    V("staggering skips the last corpus", "break", _P, "    reordered_corpora = corpora[start_corpora_id:] + corpora[:start_corpora_id]", "    reordered_corpora = corpora[start_corpora_id:]", "O3.9"),
+    V("reader created but not counted", "break", _P, "                reader_queue.append(reader)\n                total_readers += 1", "                reader_queue.append(reader)", "O3.9"),
+    V("small shares get no reader", "break", _P, "            if num_docs > 0:\n                reader: IndexDataReader = create_reader(", "            if num_docs > bulk_size:\n                reader: IndexDataReader = create_reader(", "O3.9"),
     # preserving
     V("remaining local", "keep", _P, "        lines = self.source.readlines(min(self.bulk_size, self.number_of_lines - self.current_line))", "        remaining = self.number_of_lines - self.current_line\n        lines = self.source.readlines(min(self.bulk_size, remaining))"),
     V("k * docs", "keep", _P, "    lines = docs * source_lines_per_doc", "    lines = source_lines_per_doc * docs"),
